@@ -38,7 +38,7 @@ def cfg_of(vec, hdrsel=True):
     f = {"kind": "none", "at": 0}
     if vec.get("mode") == "wfail" or vec.get("failk", 0) > 0:     # a write fault, possibly under an imposed delivery order (mode gate)
         f = {"kind": "wr", "at": vec["failk"]}
-    elif vec.get("mode") == "badrec":
+    elif vec.get("mode") == "badrec" or vec.get("badat", -1) >= 0:   # a bad record, possibly under an imposed delivery order of the ones before it
         f = {"kind": "rd", "at": vec["badat"]}
     c["fault"] = f
     return c
